@@ -38,3 +38,24 @@ func TestVerifReplayF16Claim(t *testing.T) {
 		t.Fatalf("VERIF-REPRODUCED F16: task claimed at t=1000 with ttl=MaxInt64 has expiresAt=%d (lease expired at birth)", tk.ExpiresAt)
 	}
 }
+
+// F16 (C07): the wrap-around at the ClaimTask site itself.
+func TestVerifReplayF16ClaimTask(t *testing.T) {
+	h := newVfHarness(t)
+	c := h.submit(&t_api.Request{Kind: t_api.CreatePromise, CreatePromise: &t_api.CreatePromiseRequest{Id: "p", Timeout: 1 << 40, Tags: map[string]string{"resonate:invoke": "default"}}})
+	h.run(1000, c)
+	if c.err != nil {
+		t.Fatal(c.err)
+	}
+	k := h.submit(&t_api.Request{Kind: t_api.ClaimTask, ClaimTask: &t_api.ClaimTaskRequest{Id: "__invoke:p", Counter: 1, ProcessId: "w", Ttl: math.MaxInt64}})
+	h.run(2000, k)
+	if k.err != nil {
+		t.Fatal(k.err)
+	}
+	if k.res.ClaimTask.Status != t_api.StatusCreated {
+		t.Skipf("claim not possible in this configuration: %d", k.res.ClaimTask.Status)
+	}
+	if tk := k.res.ClaimTask.Task; tk.ExpiresAt < 2000 {
+		t.Fatalf("VERIF-REPRODUCED F16: task claimed at t=2000 with ttl=MaxInt64 has expiresAt=%d (lease expired at birth)", tk.ExpiresAt)
+	}
+}
